@@ -26,6 +26,22 @@ out.append("|---|---|")
 for p in sorted(res):
     out.append("| %s | %s |" % (p, ", ".join(n for n,_ in res[p])))
 out.append("")
+# ---- measured coverage per property (quick: committed evidence; thorough: notes/thorough_runs.json)
+def fmt(cov):
+    keys=['evaluations','distinct_nontrivial','states','transitions','schedules','traces_validated_against_impl']
+    return ", ".join("%s=%s"%(k,cov[k]) for k in keys if k in cov)
+thor={}
+try: thor=json.load(open('/verif/notes/thorough_runs.json'))
+except Exception: pass
+out.append("### Measured coverage (quick = the committed evidence files; thorough = last complete thorough run, `notes/thorough_runs.json`)\n")
+out.append("| id | quick | quick wall | thorough | thorough wall |")
+out.append("|---|---|---|---|---|")
+for f in sorted(glob.glob('/verif/evidence/C*.json')):
+    ev=json.load(open(f)); pid=ev['property_id']
+    t=thor.get(pid,{})
+    out.append("| %s | %s%s | %.0f s | %s%s | %s |" % (pid, fmt(ev['coverage']), "" if ev['coverage'].get('exhaustive') else " (capped)", ev['wall_s'],
+        fmt(t.get('coverage',{})), "" if t.get('coverage',{}).get('exhaustive',True) else " (capped)", ("%.0f s"%t['wall_s']) if 'wall_s' in t else "-"))
+out.append("")
 s=open('/verif/DESIGN.md').read()
 b,e='<!-- GENERATED:BEGIN -->','<!-- GENERATED:END -->'
 block=b+"\n"+"\n".join(out)+"\n"+e
